@@ -76,6 +76,11 @@ CHECKS = {
          "Generated search over scenarios where order can leak (multi-entry maps rendered in help, the same option set from several INI sections, simultaneous faults, required/command lists, completion lists). Help, man page, INI output, error type+message, remaining args, all option values, INI error/values and completion items are compared across 40 evaluations per scenario within a process, and (thorough) across two processes for 300 scenarios.",
          "iteration orders are sampled by the runtime's own randomisation, not enumerated: an order dependence on a 2-entry map is missed by 40 repetitions with probability about 0.5% per scenario; SOURCE_DATE_EPOCH is pinned for the man page; terminal width pinned to 100",
          "DESIGN.md §4 C15"),
+ "C16": ("exploration",
+         "property-based testing (rapid): declarations made of unique marker words; presence of every visible marker in its help/man row and absence of every hidden marker and masked default",
+         "Generated search over declarations whose every string attribute is a unique marker, with hidden marks on options/groups/commands at any depth, default masks, env keys under env-namespaces, choices, value names, positionals, and every selectable active chain (help obtained as the ErrHelp message of '<chain> --help'). Each visible option row must carry short+namespaced long name, value name, choices, description and beside it default/mask and [$ENV]; described positionals and visible sub-commands (with aliases) must be listed; no marker of a hidden item and no masked default may occur in help or man page; the man page must list every visible option and command of the tree.",
+         "help is rendered at width 400 through a pty so rows are not wrapped (cases are skipped and counted if no pty); 'non-hidden group' is read as the group's own hidden mark, nested groups of a hidden group are generated hidden too; for chains through a hidden command only the man-page and leak checks apply; man-page details it never renders (choices, positionals) are not demanded",
+         "DESIGN.md §4 C16"),
  "C17": ("exploration",
          "property-based testing (rapid): structural layout predicates over help rendered at generated terminal widths through a real pseudo-terminal",
          "Generated search over names in five scripts, descriptions with long words/newlines/blank paragraphs, nesting and terminal widths 1..400 (real pty on fd 0); the rendered help must not panic, be valid UTF-8, start all descriptions in one column (characters), indent continuation lines to it, conserve the words in order, and respect the width when >= 10 columns remain.",
